@@ -11,6 +11,7 @@ CONSTANTS
   Backends <- BothBackends
   Points <- PointsDef
   TrackLineage <- TrueConst
+  MaxAfter <- Two
 VIEW cgenview
 INVARIANTS EmitCrash CrashWellFormed
 CHECK_DEADLOCK FALSE
